@@ -69,6 +69,7 @@ class UnitResult:
         self.gen_path = ""
         self.dropped = []
         self.retries = 0
+        self.gen_stats = None
 
     def to_json(self):
         return {k: getattr(self, k) for k in (
@@ -81,6 +82,7 @@ class UnitResult:
             "items_extracted": len(self.functions),
             "per_function_smt_ms": {k: v["time_ms"] for k, v in self.verus_functions.items()},
             "failures": self.failures,
+            "generator_stats": self.gen_stats,
         }
 
 
@@ -124,18 +126,24 @@ def scan_trusted(lines):
     return sorted(set(out))
 
 
-def run_unit(name, template, rlimit=30, canaries=True, threads=None):
+def run_unit(name, template, rlimit=30, canaries=True, threads=None, generator=None):
     os.makedirs(GEN, exist_ok=True)
     res = UnitResult(name)
     t0 = time.time()
-    tpath = os.path.join(VERIF, template)
+    gen_stats = None
     try:
+        if generator:
+            from . import gen_derived
+            tpath, gen_stats = gen_derived.make(**generator)
+        else:
+            tpath = os.path.join(VERIF, template)
         lines, infos = assemble.assemble(tpath)
     except assemble.Undecided as e:
         res.reason = str(e)
         res.wall_s = time.time() - t0
         return res
     res.functions = infos
+    res.gen_stats = gen_stats
     gen = os.path.join(GEN, name + ".rs")
     open(gen, "w").write("\n".join(l.text for l in lines) + "\n")
     res.gen_path = gen
